@@ -47,6 +47,14 @@ pub fn auth_probe(s: &Sim) -> StateObs {
         ("contract", contract_addr()),
         ("user", u(1)),
         ("stranger", p20("x")),
+        // hook accounts of the originally configured channel / staker / collector (equal to the
+        // current ones until a configuration update moves them)
+        ("original_staker_hook", bech::hook_sender(SIM_CHANNEL, &n20(&s.w.k, "staker"), PROTO_PREFIX)),
+        ("original_reward_hook", bech::hook_sender(SIM_CHANNEL, &n20(&s.w.k, "collector"), PROTO_PREFIX)),
+        // same native accounts seen through another channel, and other native accounts on the same channel
+        ("staker_via_other_channel", bech::hook_sender("channel-77", cfg.native_chain_config.staker_address.as_str(), PROTO_PREFIX)),
+        ("collector_via_other_channel", bech::hook_sender("channel-77", cfg.native_chain_config.reward_collector_address.as_str(), PROTO_PREFIX)),
+        ("other_native_account_hook", bech::hook_sender(&cfg.protocol_chain_config.ibc_channel_id, &n20(&s.w.k, "n1"), PROTO_PREFIX)),
     ];
     let monitors: Vec<String> = cfg.monitors.iter().map(|a| a.to_string()).collect();
     let vprefix = cfg.native_chain_config.validator_address_prefix.clone();
@@ -139,6 +147,17 @@ pub fn auth_probe(s: &Sim) -> StateObs {
         }
         if authorised_ok && others_failed {
             o.tags.push(format!("c08:only_authorised_succeeded:{label}"));
+            let staker_moved = cfg.native_chain_config.staker_address.as_str() != n20(&s.w.k, "staker");
+            let channel_moved = cfg.protocol_chain_config.ibc_channel_id != SIM_CHANNEL;
+            if label == "ReceiveUnstakedTokens" && staker_moved {
+                o.tags.push("c09:new_staker_hook_accepted_old_refused".into());
+            }
+            if label == "ReceiveRewards" && staker_moved {
+                o.tags.push("c09:new_reward_hook_accepted_old_refused".into());
+            }
+            if label == "ReceiveUnstakedTokens" && channel_moved {
+                o.tags.push("c09:new_channel_hook_accepted_old_refused".into());
+            }
         }
     }
     // Withdraw pays only the caller's own request
